@@ -211,16 +211,16 @@ pub fn fa_noterm<N: Nd>(nd: &mut N) {
 }
 
 harnesses! {
-    /// @meta props=C12 tier=quick kind=K stage2=pub timeout=1500 mem=12 unwind=16 bounds="FASTQ record with header <= 1, sequence = quality <= 2 symbolic bytes (no CR/LF), LF endings, final terminator present; real search path"
+    /// @meta props=C12 tier=quick kind=K stage2=pub timeout=1500 mem=12 unwind=18 bounds="FASTQ record with header <= 1, sequence = quality <= 2 symbolic bytes (no CR/LF), LF endings, final terminator present; real search path"
     #[kani::stub(std::string::String::from_utf8_lossy, crate::src::stub_lossy_empty)]
     c12_fq_lf_term => fq_lf_term;
-    /// @meta props=C12 tier=quick kind=K stage2=pub timeout=1500 mem=12 unwind=16 bounds="as above, LF endings, final terminator absent (search + check_end)"
+    /// @meta props=C12 tier=quick kind=K stage2=pub timeout=1500 mem=12 unwind=18 bounds="as above, LF endings, final terminator absent (search + check_end)"
     #[kani::stub(std::string::String::from_utf8_lossy, crate::src::stub_lossy_empty)]
     c12_fq_lf_noterm => fq_lf_noterm;
-    /// @meta props=C12 tier=quick kind=K stage2=pub timeout=1500 mem=12 unwind=16 bounds="as above, CRLF endings, final terminator present"
+    /// @meta props=C12 tier=quick kind=K stage2=pub timeout=1500 mem=12 unwind=18 bounds="as above, CRLF endings, final terminator present"
     #[kani::stub(std::string::String::from_utf8_lossy, crate::src::stub_lossy_empty)]
     c12_fq_crlf_term => fq_crlf_term;
-    /// @meta props=C12 tier=quick kind=K stage2=pub timeout=1500 mem=12 unwind=16 bounds="as above, CRLF endings, final terminator absent (search + check_end)"
+    /// @meta props=C12 tier=quick kind=K stage2=pub timeout=1500 mem=12 unwind=18 bounds="as above, CRLF endings, final terminator absent (search + check_end)"
     #[kani::stub(std::string::String::from_utf8_lossy, crate::src::stub_lossy_empty)]
     c12_fq_crlf_noterm => fq_crlf_noterm;
     /// @meta props=C12 tier=quick kind=K stage2=pub timeout=1500 mem=12 unwind=14 bounds="FASTA record with header <= 1 byte and two sequence lines <= 1 byte, every per-line mixture of LF/CRLF, final terminator present; real search path and line iterator"
